@@ -355,6 +355,13 @@ func typedC15(r *CRecord, pkg string) []problem {
 			}
 		}
 	}
+	if k == "mangle" {
+		for _, p := range typedExact(r, pkg) {
+			if strings.Contains(p.Key, "not_a_reading_of_the_text_on_the_wire") {
+				out = append(out, p)
+			}
+		}
+	}
 	return out
 }
 
